@@ -74,6 +74,8 @@ def partition(
         if valueof is None:
             valueof = items.__getitem__
     else:  # items is a list
+        if isinstance(items, np.ndarray):
+            items = items.tolist()    # Python numbers: sums of narrow numpy integers (e.g. uint8) would silently overflow.
         item_names = items
         if valueof is None:
             valueof = lambda item: item
